@@ -334,6 +334,7 @@ func init() {
 		}
 		breaks(c, res, map[string]bool{"gen": true, "summary": true, "imports": true, "compile": true}, fails > 0)
 		c.FactsVerdict(fails > 0)
+		knownMultiFileFindings(c)
 		knownProgramFindings(c)
 	})
 }
